@@ -480,6 +480,30 @@ def operator_pairs():
     return out
 
 
+def literal_used_as_seed_and_operand():
+    """one literal value used as the initial value of a reduce AND as an ordinary operand elsewhere: a literal keeps
+    its literal type wherever it is used"""
+    add = {"k": "def", "f": "add", "params": [("acc", SI), ("e", SI)], "ret": SI, "body": [{"k": "bin", "x": "s", "op": "OAdd", "a": "acc", "b": "e"}], "res": "s", "form": "decorator"}
+    return prog([inp("xs", "xs", ("arr", SI, 3)), inp("x", "x", SI), {"k": "lit", "x": "zero", "b": "Int", "v": 0}, {"k": "lit", "x": "two", "b": "Int", "v": 2}, add,
+                 {"k": "reduce", "x": "total", "a": "xs", "f": "add", "init": "zero"},
+                 {"k": "bin", "x": "p", "op": "OMul", "a": "x", "b": "zero"}, {"k": "bin", "x": "q", "op": "OAdd", "a": "two", "b": "zero"},
+                 {"k": "reduce", "x": "total2", "a": "xs", "f": "add", "init": "two"}, {"k": "bin", "x": "w", "op": "OSub", "a": "x", "b": "two"}],
+                [("o1", "P0", "total"), ("o2", "P0", "p"), ("o3", "P0", "q"), ("o4", "P0", "total2"), ("o5", "P0", "w")], ["literal-used-as-seed-and-operand", "reduce-public-seed"])
+
+
+def names_with_blanks_and_shared_names():
+    """names are reproduced exactly: input names with leading / trailing blanks (two inputs that differ only by a
+    trailing blank are two inputs), an output with the name of an input, an output with the name of a party"""
+    body = [{"k": "bin", "x": "s", "op": "OAdd", "a": "a", "b": "b"}, {"k": "bin", "x": "t", "op": "OSub", "a": "c", "b": "d"},
+            {"k": "bin", "x": "u", "op": "OMul", "a": "e", "b": "s"}]
+    return [prog([inp("a", "age ", SI), inp("b", " income", SI), inp("c", "reading", SI, "P1"), inp("d", "reading ", SI, "P1"), inp("e", "balance", SI)] + body,
+                 [("o1", "P0", "u"), ("o2", "P1", "t"), (" total ", "P0", "s")], ["names-with-blanks-and-shared-names", "two-inputs-differing-by-a-blank"]),
+            prog([inp("a", "age ", SI), inp("b", " income", SI), inp("c", "\treading", SI, "P1"), inp("d", "score\n", SI, "P1"), inp("e", "balance", SI)] + body,
+                 [("o1 ", "P0", "u"), (" o2", "P1", "t"), (" total ", "P0", "s")], ["names-with-blanks-and-shared-names", "blanks-around-names"]),
+            prog([inp("a", "a", SI), inp("b", "b", SI), inp("c", "c", SI, "P1"), inp("d", "d", SI, "P1"), inp("e", "balance", SI)] + body,
+                 [("balance", "P0", "u"), ("c", "P1", "t"), ("a", "P0", "a"), ("P0", "P1", "s")], ["names-with-blanks-and-shared-names", "output-named-like-an-input"])]
+
+
 def objects_same_fields_other_order():
     """two objects (and two n-tuples) with the same field names and types written in different orders, mixed secrecy"""
     PI = S("Public", "Int")
@@ -604,4 +628,4 @@ def all_families():
             dup_inputs("same-party-one-dead"), literal_array_inner(), object_key_order(), literal_divisions(),
             closure_factory(), kwargs_reordered(), unzip_compound(), reduce_public_seed(), rebound_closure_variable(), explicit_types_reordered(), objects_same_fields_other_order(), dup_inputs_one_line('comprehension'), dup_inputs_one_line('helper'), matrix_params_two_element_types(),
             declassifying_function_mapped(), row_function_over_two_matrices(), array_returning_function(), call_chain_depth_four(),
-            operations_shared_between_tables(), same_output_name_to_several_parties(), attribute_like_field_names()] + random_draws_made_by_one_line() + operator_pairs() + rejected_functions() + wrong_arity_calls()
+            operations_shared_between_tables(), same_output_name_to_several_parties(), attribute_like_field_names(), literal_used_as_seed_and_operand()] + names_with_blanks_and_shared_names() + random_draws_made_by_one_line() + operator_pairs() + rejected_functions() + wrong_arity_calls()
